@@ -831,3 +831,45 @@ retry_h!(procfs_retry_masked_again, [P_OK, P_FAIL, P_ANY, P_OK, P_OK, P_FAIL, P_
 retry_h!(procfs_retry_handle_creation_fails, [P_OK, P_FAIL, P_ANY, P_FAIL, P_ANY, P_ANY, P_ANY, P_ANY], libc::ENOENT, 1, true);
 // masked handle, lookup fails with EACCES: not retried
 retry_h!(procfs_retry_not_for_other_errno, [P_OK, P_FAIL, P_ANY, P_ANY, P_ANY, P_ANY, P_ANY, P_ANY], libc::EACCES, 1, true);
+
+// ---------------------------------------------------------------------------
+// readlink = no-follow open (O_PATH) of the path + readlinkat(fd, "")
+
+#[kani::proof]
+#[kani::unwind(18)]
+#[kani::stub(crate::procfs::ProcfsHandle::open, crate::procfs::ProcfsHandle::k_ph_open)]
+#[kani::stub(crate::procfs::ProcfsHandle::open_follow, crate::procfs::ProcfsHandle::k_open_follow)]
+#[kani::stub(crate::syscalls::readlinkat, k_readlinkat_err)]
+#[kani::stub(alloc::fmt::format, k_format)]
+fn procfs_readlink_body() {
+    install_close_model();
+    reset(3);
+    crate::verif_kani::kernel::of_set(0, 0, false, -1);
+    let hfd = given_fd(false);
+    let h = ProcfsHandle::verif_make(hfd, kani::any(), false, true);
+    let (buf, len) = sym_subpath();
+    let sub = Path::new(std::ffi::OsStr::from_bytes(&buf[..len]));
+    let res = h.readlink(ProcfsBase::ProcSelf, sub);
+    let ok = res.is_ok();
+    std::mem::forget(res);
+    std::mem::forget(h);
+    let k = kref();
+    assert!(!k.any_violation());
+    // never through the following variant
+    assert!(crate::verif_kani::kernel::of_get().0 == 0, "readlink went through open_follow");
+    // exactly one no-follow lookup of the very path with O_PATH and nothing else ...
+    assert!(k.ncalls >= 1 && k.log[0].kind == C_PROC_RESOLVE);
+    assert!(bytes_eq(&k.log[0].name, k.log[0].name_len, &buf, len));
+    assert!(k.log[0].flags == libc::O_PATH as u32 as u64);
+    if k.log[0].ok {
+        // ... and the link body is read from THAT descriptor (empty path), not by name
+        assert!(k.ncalls == 2 && k.log[1].kind == C_READLINKAT);
+        assert!(k.log[1].dirfd == k.log[0].ret_fd && k.log[1].name_len == 0);
+    } else {
+        assert!(k.ncalls == 1);
+    }
+    assert!(!ok); // (the readlinkat model can only fail: link bodies are heap strings)
+    assert!(k.n_open() == 1);
+    kani::cover!(k.ncalls == 2, "link body requested");
+    kani::cover!(k.ncalls == 1, "lookup failed");
+}
